@@ -97,6 +97,12 @@ func Seed() int64 {
 }
 
 func NewRun(prop, tier string) *Run {
+	// replay files of earlier runs of this property are stale
+	if old, _ := filepath.Glob(filepath.Join(tlcrun.VerifDir(), "replay", prop+"-*.json")); old != nil {
+		for _, f := range old {
+			os.Remove(f)
+		}
+	}
 	return &Run{Prop: prop, Tier: tier, Seed: Seed(), Start: time.Now(), others: map[string]int{}}
 }
 
